@@ -439,6 +439,14 @@ def h_shortest_path_other_shapes(sx):
 
 
 def obligations(tier):
+    obs = _obligations(tier)
+    for o in obs:  # a sample of the symbolically decided assertions is re-decided by the cvc5 binary
+        if o.name.startswith(('combinators', 'wiring')):
+            o.cross_check = 6 if tier == 'quick' else 60
+    return obs
+
+
+def _obligations(tier):
     q = tier == 'quick'
     sigma = SIGMA_2C if q else SIGMA_FULL
     obs = []
